@@ -73,6 +73,10 @@ EXPECTED = {
  'Thread_Init_Run': 'struct Thread* t = self; pthread_setspecific(Thread_Key_Wrapper, t); t->is_running = true; var bottom = NULL; var gc = new_raw(GC, $R(&bottom)); var exc = new_raw(Exception); var x = call_with(t->func, t->args); del_raw(t->args); t->args = NULL; del_raw(gc); del_raw(exc); return x;',
  'Thread_Call': 'struct Thread* t = self; t->args = assign(alloc_raw(type_of(args)), args); if (not Thread_TLS_Key_Created) { Thread_TLS_Key_Create(); Thread_TLS_Key_Created = true; atexit(Thread_TLS_Key_Delete); } int err = pthread_create(&t->thread, NULL, Thread_Init_Run, t); if (err is EINVAL) { throw(ValueError, "Invalid Argument to Thread Creation"); } if (err is EAGAIN) { throw(OutOfMemoryError, "Not enough resources to create another Thread"); } if (err is EBUSY) { throw(BusyError, "System is too busy to create thread"); } return self;',
  'Thread_Join': 'struct Thread* t = self; if (not t->thread) { return; } int err = pthread_join(t->thread, NULL); if (err is EINVAL) { throw(ValueError, "Invalid Argument to Thread Join"); } if (err is ESRCH) { throw(ValueError, "Invalid Thread"); } if (err is EDEADLK) { throw(ResourceError, "Thread cannot join itself or a thread that is joining it"); }',
+ 'Thread_Stop': 'struct Thread* t = self; if (not t->thread) { return; } int err = pthread_kill(t->thread, SIGINT); if (err is EINVAL) { throw(ValueError, "Invalid Argument to Thread Stop"); } if (err is ESRCH) { throw(ValueError, "Invalid Thread"); }',
+ 'Thread_Running': 'struct Thread* t = self; return t->is_running;',
+ 'Thread_C_Int': 'struct Thread* t = self; if (not t->is_running) { throw(ValueError, "Cannot get thread ID, thread not running!"); } return (int64_t)t->thread;',
+ 'Thread_New_flags': 't->func = empty(args) ? NULL : get(args, $I(0)); t->args = NULL; t->is_main = false; t->is_running = false;',
  'Thread_Get': 'struct Thread* t = self; return deref(get(t->tls, key));',
  'Thread_Set': 'struct Thread* t = self; set(t->tls, key, $R(val));',
  'Thread_Mem': 'struct Thread* t = self; return mem(t->tls, key);',
@@ -108,12 +112,14 @@ def gen_thr(repo):
     st = read(f'{repo}/src/Start.c'); al = read(f'{repo}/src/Alloc.c'); ty = read(f'{repo}/src/Type.c')
     hdr = open(f'{repo}/include/Cello.h', encoding='utf-8', errors='replace').read()
     shape = {}
-    for f in ('Thread_Current', 'Thread_Init_Run', 'Thread_Call', 'Thread_Join', 'Thread_Get', 'Thread_Set', 'Thread_Mem', 'Thread_Rem',
+    for f in ('Thread_Current', 'Thread_Init_Run', 'Thread_Call', 'Thread_Join', 'Thread_Stop', 'Thread_Running', 'Thread_C_Int', 'Thread_Get', 'Thread_Set', 'Thread_Mem', 'Thread_Rem',
               'Thread_Mark', 'Mutex_New', 'Mutex_Lock', 'Mutex_Trylock', 'Mutex_Unlock'):
         shape[f] = first_body(th, f)
     m = re.search(r't->tls\s*=\s*new_raw\([^;]*\)\s*;', func_body(th, 'Thread_New'))
     if not m: raise ExtractError('Thread_New: creation of the tls table not found')
     shape['Thread_New'] = norm(m.group(0))
+    m = re.search(r't->func\s*=[^;]*;\s*t->args\s*=[^;]*;\s*t->is_main\s*=[^;]*;\s*t->is_running\s*=[^;]*;', func_body(th, 'Thread_New'))
+    shape['Thread_New_flags'] = norm(m.group(0)) if m else 'none'
     shape['Thread_Del'] = first_body(th, 'Thread_Del')
     shape['Thread_Assign'] = first_body(th, 'Thread_Assign')
     m = re.search(r'var\s+Thread\s*=\s*Cello\s*\(\s*Thread\s*,', th)
@@ -166,6 +172,7 @@ def gen_thr(repo):
         'unlockErr': err_table(shape['Mutex_Unlock'], 'Mutex_Unlock'),
         'joinErr': err_table(shape['Thread_Join'], 'Thread_Join'),
         'createErr': err_table(shape['Thread_Call'], 'Thread_Call'),
+        'stopErr': err_table(shape['Thread_Stop'], 'Thread_Stop'),
     }
     m = re.search(r'return\s+(true|false)\s*;\s*$', shape['Mutex_Trylock'])
     if not m: raise ExtractError('Mutex_Trylock: final return not found')
@@ -175,6 +182,30 @@ def gen_thr(repo):
     pg, pe = ir.find('del_raw(gc)'), ir.find('del_raw(exc)')
     if pg < 0 or pe < 0: raise ExtractError('Thread_Init_Run: del_raw(gc) / del_raw(exc) not found')
     gc_first = pg < pe
+    # extension round: the order of flag test, primitive call and translation inside the wrappers, as facts
+    def guard_first(body, prim):
+        # `if (not t->thread) { return; }` is the first statement, the primitive is called exactly once, after it, on t->thread,
+        # and every test of `err` follows the call
+        g = body.find('if (not t->thread) { return; }'); c = body.find(prim + '(t->thread')
+        tests = [mm.start() for mm in re.finditer(r'if \(err (?:is|==)', body)]
+        return body.startswith('struct Thread* t = self; if (not t->thread) { return; }') and body.count(prim + '(') == 1 and 0 <= g < c and all(c < x for x in tests)
+    def prim_first(body, prim):
+        # the primitive is called exactly once, on the object's own pthread mutex, before every test of `err`
+        c = body.find(prim + '(&m->mutex)')
+        tests = [mm.start() for mm in re.finditer(r'if \(err (?:is|==)', body)]
+        return body.count(prim + '(') == 1 and c >= 0 and all(c < x for x in tests) and 'return' not in body[:c]
+    facts = {
+        'joinGuardsThread': guard_first(shape['Thread_Join'], 'pthread_join'),
+        'stopGuardsThread': guard_first(shape['Thread_Stop'], 'pthread_kill'),
+        'lockCallsPrimFirst': prim_first(shape['Mutex_Lock'], 'pthread_mutex_lock'),
+        'trylockCallsPrimFirst': prim_first(shape['Mutex_Trylock'], 'pthread_mutex_trylock'),
+        'unlockCallsPrimFirst': prim_first(shape['Mutex_Unlock'], 'pthread_mutex_unlock'),
+        # is_running: set by the prologue of Thread_Init_Run (and by Thread_Current for the main wrapper), cleared by Thread_New only
+        'prologueSetsRunning': 't->is_running = true;' in ir[:ir.find('call_with(')] if 'call_with(' in ir else False,
+        'epilogueClearsRunning': 'is_running = false' in ir,
+        # Thread_Call copies the argument tuple before pthread_create and touches neither flag
+        'callCopiesArgsFirst': 0 <= shape['Thread_Call'].find('t->args = assign(alloc_raw(type_of(args)), args);') < shape['Thread_Call'].find('pthread_create('),
+    }
     names = list(EXPECTED.keys())
     missing = [n for n in names if n not in shape]
     if missing: raise ExtractError(f'not extracted: {missing}')
@@ -183,6 +214,10 @@ def gen_thr(repo):
     for k, t in tabs.items():
         out += f'def {k} : List (String × String) := [' + ', '.join(f'({lean_str(a)}, {lean_str(b)})' for a, b in t) + ']\n'
     out += f'def trylockDefault : String := {lean_str(trydef)}\n\n'
+    out += '/-- order of flag test / primitive call / error translation inside the wrappers (extension round) -/\n'
+    for k, v in facts.items():
+        out += f"def {k} : Bool := {'true' if v else 'false'}\n"
+    out += '\n'
     out += '/-- does the epilogue of `Thread_Init_Run` delete the collector (teardown sweep) before the exception record? -/\n'
     out += f"def teardownGcFirst : Bool := {'true' if gc_first else 'false'}\n\n"
     out += '/-- true iff the mark phase of one thread walks the thread-local table of every Thread object it reaches: `Thread_Mark`\n'
